@@ -50,7 +50,7 @@ type File struct {
 type Workspace struct {
 	ID     int    `json:"id"`
 	Files  []File `json:"files"`
-	Config string `json:"config"` // "default" | "enable-all" | "old-caps" | "few-rules"
+	Config string `json:"config"` // "default" | "enable-all" | "old-caps" | "few-rules" | "only:<rule title>,..."
 	Custom bool   `json:"custom"` // custom aggregate rules loaded
 	// RuleIgnore: "category/title" -> the rule's ignore.files patterns (user configuration): per-file results then
 	// differ in which rules ran at all, i.e. also in the NOTICES a file comes back with (capability-gated rules)
@@ -86,6 +86,15 @@ type Workspace struct {
 type Root struct {
 	Path    string `json:"path"`
 	Version int    `json:"version"`
+}
+
+// OnlyRules: Config "only:<title>,<title>" = every rule disabled but these (cheap evaluations: many files and many
+// repetitions for little CPU, and per-file evaluations that finish close to one another)
+func (ws Workspace) OnlyRules() []string {
+	if r, ok := strings.CutPrefix(ws.Config, "only:"); ok {
+		return strings.Split(r, ",")
+	}
+	return nil
 }
 
 // Versioned: the workspace declares Rego versions per directory (the linter then needs the path prefix)
@@ -401,6 +410,9 @@ func (ws Workspace) NewLinterAt(root string) (linter.Linter, error) {
 		// only one per-file rule and one aggregate rule that reports on the ABSENCE of aggregates
 		l = l.WithDisableAll(true).WithEnabledRules(FewRules...)
 	}
+	if only := ws.OnlyRules(); only != nil {
+		l = l.WithDisableAll(true).WithEnabledRules(only...)
+	}
 	if ws.Custom {
 		l = l.WithCustomRulesFromFS(CustomFS(), ".")
 	}
@@ -582,8 +594,11 @@ func NewOracle(ctx context.Context, ws Workspace) (*Oracle, error) {
 	if ws.Config == "few-rules" {
 		enable = FewRules
 	}
+	if only := ws.OnlyRules(); only != nil {
+		enable = only
+	}
 	params := map[string]any{
-		"disable_all": ws.Config == "few-rules", "disable_category": []string{}, "disable": []string{},
+		"disable_all": ws.Config == "few-rules" || ws.OnlyRules() != nil, "disable_category": []string{}, "disable": []string{},
 		"enable_all": ws.Config == "enable-all", "enable_category": []string{}, "enable": enable,
 		"ignore_files": []string{},
 	}
